@@ -407,3 +407,114 @@ V("c18-validator-behind-lru-cache", "C18", BN, "", "", rule="VAL1",
          (BN, "class BinaryTrie:", "import functools\n\n\n@functools.lru_cache(maxsize=128)\ndef _enc(key):\n    validate_is_bytes(key)\n    return encode_to_bin(key)\n\n\nclass BinaryTrie:")])
 V("c13-witness-drops-diverging-kv-node", "C13", "trie/branches.py", "            )\n        else:\n            yield node\n    elif nodetype == BRANCH_TYPE:\n        if keypath[:1] == BYTE_0:\n            yield node\n            yield from _get_witness_for_key_prefix(db, left_child, keypath[1:])",
   "            )\n        else:\n            return\n    elif nodetype == BRANCH_TYPE:\n        if keypath[:1] == BYTE_0:\n            yield node\n            yield from _get_witness_for_key_prefix(db, left_child, keypath[1:])", rule="SIB4")
+
+# loop forms (cond loop with a tail, break, generator loop): behaviour-preserving spellings of the recursions
+_BN_GET_REC = '''        # Empty trie
+        if node_hash == BLANK_HASH:
+            return None
+        nodetype, left_child, right_child = parse_node(self.db[node_hash])
+        # Key-value node descend
+        if nodetype == LEAF_TYPE:
+            if keypath:
+                return None
+            return right_child
+        elif nodetype == KV_TYPE:
+            # Keypath too short
+            if not keypath:
+                return None
+            if keypath[: len(left_child)] == left_child:
+                return self._get(right_child, keypath[len(left_child) :])
+            else:
+                return None
+        # Branch node descend
+        elif nodetype == BRANCH_TYPE:
+            # Keypath too short
+            if not keypath:
+                return None
+            if keypath[:1] == BYTE_0:
+                return self._get(left_child, keypath[1:])
+            else:
+                return self._get(right_child, keypath[1:])
+'''
+_BN_GET_LOOP = '''        while node_hash != BLANK_HASH:
+            nodetype, left_child, right_child = parse_node(self.db[node_hash])
+            if nodetype == LEAF_TYPE:
+                if keypath:
+                    return None
+                return right_child
+            elif nodetype == KV_TYPE:
+                if not keypath:
+                    break
+                if keypath[: len(left_child)] == left_child:
+                    node_hash = right_child
+                    keypath = keypath[len(left_child) :]
+                    continue
+                else:
+                    return None
+            elif nodetype == BRANCH_TYPE:
+                if not keypath:
+                    return None
+                if keypath[:1] == BYTE_0:
+                    node_hash = left_child
+                else:
+                    node_hash = right_child
+                keypath = keypath[1:]
+            else:
+                return None
+        return None
+'''
+V("silent-bin-get-cond-loop", "C12", BN, _BN_GET_REC, _BN_GET_LOOP, expect="silent", props=["C12", "C13", "C18"])
+V("c12-bin-get-cond-loop-wrong-child", "C12", BN, _BN_GET_REC, _BN_GET_LOOP.replace("                if keypath[:1] == BYTE_0:\n                    node_hash = left_child\n                else:\n                    node_hash = right_child", "                if keypath[:1] == BYTE_0:\n                    node_hash = right_child\n                else:\n                    node_hash = left_child"), rule="SIB4")
+_BR_GETBRANCH_REC = '''    if node_hash == BLANK_HASH:
+        return
+    node = db[node_hash]
+    nodetype, left_child, right_child = parse_node(node)
+    if nodetype == LEAF_TYPE:
+        if not keypath:
+            yield node
+        else:
+            raise InvalidKeyError("Key too long")
+    elif nodetype == KV_TYPE:
+        if not keypath:
+            raise InvalidKeyError("Key too short")
+        if keypath[: len(left_child)] == left_child:
+            yield node
+            yield from _get_branch(db, right_child, keypath[len(left_child) :])
+        else:
+            yield node
+    elif nodetype == BRANCH_TYPE:
+        if not keypath:
+            raise InvalidKeyError("Key too short")
+        if keypath[:1] == BYTE_0:
+            yield node
+            yield from _get_branch(db, left_child, keypath[1:])
+        else:
+            yield node
+            yield from _get_branch(db, right_child, keypath[1:])
+    else:
+        raise Exception("Invariant: unreachable code path")
+'''
+_BR_GETBRANCH_LOOP = '''    while node_hash != BLANK_HASH:
+        node = db[node_hash]
+        nodetype, left_child, right_child = parse_node(node)
+        if nodetype == LEAF_TYPE:
+            if keypath:
+                raise InvalidKeyError("Key too long")
+            yield node
+            return
+        if nodetype not in (KV_TYPE, BRANCH_TYPE):
+            raise Exception("Invariant: unreachable code path")
+        if not keypath:
+            raise InvalidKeyError("Key too short")
+        yield node
+        if nodetype == KV_TYPE:
+            if keypath[: len(left_child)] != left_child:
+                return
+            node_hash = right_child
+            keypath = keypath[len(left_child) :]
+        else:
+            node_hash = left_child if keypath[:1] == BYTE_0 else right_child
+            keypath = keypath[1:]
+'''
+V("silent-get-branch-generator-loop", "C13", "trie/branches.py", _BR_GETBRANCH_REC, _BR_GETBRANCH_LOOP, expect="silent", props=["C13", "C18"])
+V("c13-get-branch-generator-loop-no-yield", "C13", "trie/branches.py", _BR_GETBRANCH_REC, _BR_GETBRANCH_LOOP.replace("        yield node\n        if nodetype == KV_TYPE:\n            if keypath[: len(left_child)] != left_child:\n                return\n", "        if nodetype == KV_TYPE:\n            if keypath[: len(left_child)] != left_child:\n                return\n            yield node\n").replace("        else:\n            node_hash = left_child if", "        else:\n            yield node\n            node_hash = left_child if"), rule="SIB4")
